@@ -19,7 +19,7 @@ EXPLANATION = ("Frame condition on every path: before each call the harness snap
                "identical terms.  Shape mutation does not depend on numeric values, so the solver's share here is small (stated in "
                "DESIGN section 8); what the symbolic run adds is that the frame condition is checked on all paths and for all numeric "
                "contents.")
-BOUNDS = {'quick': 'simulators: P3 with weights and all container kinds, <=3 events; ODE: every direct model function reached from its *_from_graph wrapper on paw / irr5, rho and explicit sets',
+BOUNDS = {'quick': 'simulators: P3 with weights and all container kinds (disjoint, and for SIR overlapping infected/recovered containers), <=3 events; ODE: every direct model function reached from its *_from_graph wrapper on paw / irr5, rho and explicit sets',
           'thorough': 'adds K3, S3 for simulators and P4, K4 for the ODE functions'}
 ASSUMPTIONS = ['floats as reals', 'the integrator (stubbed) does not write into the arrays it is given']
 OPTS = {'quick': {'max_validate': 0, 'cfg_timeout': 200}, 'thorough': {'max_validate': 0, 'cfg_timeout': 900}}
